@@ -1,8 +1,9 @@
-import Generated.C05
+import Generated.C06
 import Model.KN
 import Model.KNSpec
 import Model.KNQuery
 import Proofs.KNNorm
+import Proofs.KNTable
 /-!
 # C06 — lmplz output is a proper, closed, loadable language model
 
@@ -22,11 +23,11 @@ open KV.KN KV.KN.Norm
 /-- special unigrams are never count-pruned in the order ≥ 2 paths of `AdjustCounts::Run`
 (broken obligation on a tree where `</s>` can be marked: then the header count is one short
 and `p(</s>)` is garbage — replayed by the check) -/
-theorem keep_specials_tree : KV.Gen.C05.keepSpecials = true := by decide
+theorem keep_specials_tree : KV.Gen.C06.keepSpecials = true := by decide
 
 /-- `PruneNGramStream` moves special unigrams like every other kept record (on the unrepaired
 tree a special unigram that follows a pruned one in a renumbered vocabulary is lost) -/
-theorem prune_copies_specials_tree : KV.Gen.C05.pruneCopiesSpecials = true := by decide
+theorem prune_copies_specials_tree : KV.Gen.C06.pruneCopiesSpecials = true := by decide
 
 /-! ## normalisation -/
 
@@ -64,6 +65,27 @@ theorem normalised_estimate (cfg : Cfg) (fallback : Option Disc) (full : Spec.Ta
     (ctx : Gram) :
     ((Query.vocabNoBos m.orders).map (Query.score m.orders ctx)).sum = 1 :=
   KV.KN.Norm.normalised_estimate cfg fallback full m hm hT ctx
+
+/-- **normalised, from decidable facts about the count table only** (`Spec.TableWF`: every row
+has `order` words, rows distinct with positive counts, the newest word is never `<s>`/`<unk>`,
+no `<unk>`/`</s>` in second position, `<s>` only as a run at the old end, every n-gram occurs
+at most as often as its context (`tailDom`), non-decreasing prune thresholds).  The driver
+evaluates `Spec.tableWFb` on every generated case. -/
+theorem normalised_table (cfg : Cfg) (fallback : Option Disc) (full : Spec.Table) (m : Model)
+    (hm : Spec.estimateFrom cfg fallback full = .ok m) (hw : Spec.TableWF cfg full) (ctx : Gram) :
+    ((Query.vocabNoBos m.orders).map (Query.score m.orders ctx)).sum = 1 :=
+  KV.KN.Norm.normalised_table cfg fallback full m hm hw ctx
+
+/-- the order-1 model -/
+theorem normalised_table1 (cfg : Cfg) (fallback : Option Disc) (full : Spec.Table) (m : Model)
+    (hm : Spec.estimateFrom cfg fallback full = .ok m) (hw : Spec.TableWF1 cfg full) (ctx : Gram) :
+    ((Query.vocabNoBos m.orders).map (Query.score m.orders ctx)).sum = 1 :=
+  KV.KN.Norm.normalised_table1 cfg fallback full m hm hw ctx
+
+/-- `TableWF` ⇒ the records of the specification are closed, distinct, positively counted, … -/
+theorem tableOK_of_wf {cfg : Cfg} {full : Spec.Table} (hw : Spec.TableWF cfg full) (discs : List (Disc × Bool)) :
+    TableOK (specCtx cfg full discs) :=
+  KV.KN.Norm.tableOK_of_wf hw discs
 
 /-! ## header counts, specials, closure -/
 
